@@ -732,7 +732,8 @@ def sparse_correlation(ind1, data1, ind2, data2, n_features):
 
     dot_prod_inds, dot_prod_data = sparse_mul(ind1, shifted_data1, ind2, shifted_data2)
 
-    common_indices = set(dot_prod_inds)
+    # indices present in both vectors (a zero product must not hide one)
+    common_indices = set(arr_intersect(ind1, ind2))
 
     for val in dot_prod_data:
         dot_product += val
